@@ -4,8 +4,8 @@ import (
 	nethttp "net/http"
 	"net/url"
 
-	"github.com/labstack/echo/v4"
 	"github.com/junioryono/godi/v4/zzverif/vrt"
+	"github.com/labstack/echo/v4"
 )
 
 type rw struct {
